@@ -97,3 +97,28 @@ def split_atoms(s, sep):
         else:
             pieces[-1].append(a)
     return [mkstr(SStr(p)) for p in pieces]
+
+
+def install_loop_body_hook(it, func_name, ordinal, setup):
+    """Fold rule (DESIGN.md 2.3 d): when the interpreter reaches loop `ordinal` of function
+    `func_name`, `setup(env, ctx, iterable)` havocs the loop-carried variables and returns the
+    item to bind; the body is executed exactly once; execution then stops with LoopExit carrying
+    the environment after the body and how the body ended ('next' | 'continue' | 'break')."""
+    from .interp import LoopExit, _Continue, _Break, _Return
+    from .core import Ctx
+
+    def hook(interp, env, node, iterable):
+        ctx = Ctx.current
+        item = setup(env, ctx, iterable)
+        interp.assign(node.target, item, env)
+        kind = "next"
+        try:
+            interp.exec_block(node.body, env)
+        except _Continue:
+            kind = "continue"
+        except _Break:
+            kind = "break"
+        except _Return as r:
+            kind = "return"
+        raise LoopExit(env, kind)
+    it.loop_hooks[(func_name, ordinal)] = hook
